@@ -17,6 +17,7 @@ package main
 // Office performs; ties the conversion inside standardConvertPasswdToKey to the independent encoder.
 
 import (
+	"archive/zip"
 	"bytes"
 	"crypto/aes"
 	"crypto/cipher"
@@ -411,6 +412,201 @@ func c13sinfoCases(r *Run, rng *Rng, thorough bool) {
 		c13sinfo(r, c, rng.Pick2([]int{8, 24, 40, 7, 25}))
 	}
 }
+
+// c13kds: the real standardConvertPasswdToKey (hook) vs the model standardKey with SHA-1.
+func c13kds(r *Run, salt []byte, pw string, keyBits int) {
+	op := fmt.Sprintf("kds %s %s %d", hx(string(salt)), hx(pw), keyBits)
+	r.Stat("op:kds")
+	res := "PANIC"
+	func() {
+		defer func() { _ = recover() }()
+		k, err := xl.VerifC13StandardKey(salt, pw, uint32(keyBits))
+		if err != nil {
+			res = "ERR"
+		} else {
+			res = "ok " + hx(string(k))
+		}
+	}()
+	r.Op(op, res)
+	r.Case(op, true)
+}
+
+// c13kda: the real convertPasswdToKey (hook, hash algorithm SHA1) vs the model agileKey with SHA-1.
+func c13kda(r *Run, salt []byte, pw string, spin, keyBits int, blockKey []byte) {
+	op := fmt.Sprintf("kda %s %s %d %d %s", hx(string(salt)), hx(pw), spin, keyBits, hx(string(blockKey)))
+	r.Stat("op:kda")
+	res := "PANIC"
+	func() {
+		defer func() { _ = recover() }()
+		k, err := xl.VerifC13AgileKey(pw, blockKey, "SHA1", base64.StdEncoding.EncodeToString(salt), spin, keyBits)
+		if err != nil {
+			res = "ERR"
+		} else {
+			res = "ok " + hx(string(k))
+		}
+	}()
+	r.Op(op, res)
+	r.Case(op, true)
+}
+
+func c13kdCases(r *Run, rng *Rng, pws []string, thorough bool) {
+	rnd := func(n int) []byte {
+		b := make([]byte, n)
+		for i := range b {
+			b[i] = byte(rng.Intn(256))
+		}
+		return b
+	}
+	n := 6
+	if thorough {
+		n = 40
+	}
+	for i := 0; i < n; i++ {
+		c13kds(r, rnd(16), pws[(i*7+3)%len(pws)], []int{128, 192, 256, 0, 320, 328, 64, 136}[i%8])
+	}
+	c13kds(r, nil, "pw", 128)
+	blockKeys := [][]byte{{0x14, 0x6e, 0x0b, 0xe7, 0xab, 0xac, 0xd0, 0xd6}, {0xfe, 0xa7, 0xd2, 0x76, 0x3b, 0x4b, 0x9e, 0x79}, {}, {1}}
+	na := 40
+	if thorough {
+		na = 400
+	}
+	for i := 0; i < na; i++ {
+		spin := []int{0, 1, 2, 3, 10, 100, 255, 256, 257, 1000}[i%10]
+		if i == 7 {
+			spin = 100000
+		}
+		c13kda(r, rnd([]int{16, 0, 8, 32}[i%4]), pws[(i*5+1)%len(pws)], spin, []int{128, 256, 160, 0, 8, 168, 512, 159}[i%8], blockKeys[i%4])
+	}
+}
+
+// c13openmap: OpenReader's error mapping on one input of the given kind; the branch conditions are
+// measured independently here and given to the model.
+func c13openmap(r *Run, kind string, seed uint64) {
+	rng := NewRng(seed)
+	pw := "secret"
+	var data []byte
+	mkBook := func(password string) []byte {
+		f := xl.NewFile()
+		defer f.Close()
+		_ = f.SetCellValue("Sheet1", "A1", "x")
+		var buf bytes.Buffer
+		if password == "" {
+			_ = f.Write(&buf)
+		} else {
+			_ = f.Write(&buf, xl.Options{Password: password})
+		}
+		return buf.Bytes()
+	}
+	openPw := pw
+	switch kind {
+	case "plain":
+		data, openPw = mkBook(""), ""
+	case "plain-pw":
+		data = mkBook("")
+	case "garbage":
+		data, openPw = []byte(c13randText(rng, 600)), ""
+	case "garbage-pw":
+		data = []byte(c13randText(rng, 600))
+	case "enc-right":
+		data = mkBook(pw)
+	case "enc-wrong":
+		data, openPw = mkBook(pw), "other"
+	case "enc-missing":
+		data, openPw = mkBook(pw), ""
+	case "ole-short":
+		data = append([]byte{0xd0, 0xcf, 0x11, 0xe0, 0xa1, 0xb1, 0x1a, 0xe1}, make([]byte, 100)...)
+	case "ole-damaged":
+		data = mkBook(pw)
+		for i := 0x2C; i < 0x30; i++ {
+			data[i] = 0xFF
+		}
+	case "ole-in-zip": // a plain workbook that merely contains the signature bytes
+		data, openPw = append(mkBook(""), 0xd0, 0xcf, 0x11, 0xe0, 0xa1, 0xb1, 0x1a, 0xe1), ""
+	case "enc-truncated":
+		data = mkBook(pw)
+		data = data[:len(data)/2/512*512]
+	case "zip-bad-part": // zip opens, a part does not decode
+		f := xl.NewFile()
+		f.Pkg.Store("xl/styles.xml", []byte("<styleSheet><fonts"))
+		var buf bytes.Buffer
+		_ = f.Write(&buf)
+		f.Close()
+		data, openPw = buf.Bytes(), ""
+	default:
+		return
+	}
+	hasOle := bytes.Contains(data, []byte{0xd0, 0xcf, 0x11, 0xe0, 0xa1, 0xb1, 0x1a, 0xe1})
+	decOk, inner := true, data
+	if hasOle {
+		d, res := c13decrypt(data, openPw)
+		decOk = res == "ok"
+		inner = d
+	}
+	zipOk := false
+	var zr *zip.Reader
+	if decOk {
+		z, err := zip.NewReader(bytes.NewReader(inner), int64(len(inner)))
+		zipOk, zr = err == nil, z
+	}
+	b01 := func(b bool) int {
+		if b {
+			return 1
+		}
+		return 0
+	}
+	content, class := 0, "none"
+	func() {
+		defer func() {
+			if p := recover(); p != nil {
+				class = "PANIC"
+			}
+		}()
+		var f *xl.File
+		var err error
+		if openPw == "" {
+			f, err = xl.OpenReader(bytes.NewReader(data))
+		} else {
+			f, err = xl.OpenReader(bytes.NewReader(data), xl.Options{Password: openPw})
+		}
+		if f != nil {
+			content = 1
+			f.Close()
+		}
+		switch {
+		case err == nil:
+		case err == xl.ErrWorkbookFileFormat:
+			class = "fileFormat"
+		case err == xl.ErrWorkbookPassword:
+			class = "password"
+		default:
+			class = "other"
+		}
+	}()
+	// later stages are not measured independently: read/parts flags follow from the outcome when the zip opened
+	readOk, partsOk := 1, 1
+	if zipOk && decOk {
+		if content == 0 {
+			readOk = 0
+		} else if class != "none" {
+			partsOk = 0
+		}
+	}
+	_ = zr
+	op := fmt.Sprintf("openmap %s %d %d %d %d %d %d %d", kind, seed, b01(hasOle), b01(decOk), b01(zipOk), b01(openPw != ""), readOk, partsOk)
+	ln := r.Op(op, fmt.Sprintf("content=%d err=%s", content, class))
+	r.Case(op, true)
+	r.Stat("op:openmap")
+	r.Stat("openmap:" + kind + ":" + class)
+	// direct oracle: content only after a successful decrypt (when encrypted) and a valid zip
+	if content == 1 && ((hasOle && !decOk) || !zipOk) {
+		r.Fail("open:content-without-decrypt", fmt.Sprintf("OpenReader returns a *File for kind %s although decrypt/zip failed", kind), ln, op)
+	}
+	if (kind == "enc-wrong" || kind == "enc-missing") && (content == 1 || class == "none") {
+		r.Fail("open:wrong-password-accepted", "OpenReader opened a protected workbook with a wrong or missing password ("+kind+")", ln, op)
+	}
+}
+
+var c13openKinds = []string{"plain", "plain-pw", "garbage", "garbage-pw", "enc-right", "enc-wrong", "enc-missing", "ole-short", "ole-damaged", "ole-in-zip", "enc-truncated", "zip-bad-part"}
 
 func c13agileSizes(rng *Rng, thorough bool) []int {
 	s := []int{4096, 0, 1, 15, 16, 17, 100, 4079, 4080, 4081, 4088, 4095, 4097, 4111, 4112, 4113, 8175, 8176, 8177, 8191, 8192, 8193,
